@@ -1,0 +1,37 @@
+//go:build verif
+
+package caddy
+
+import "sync"
+
+// Yield points of usagepool.go (verification builds only, build tag `verif`).
+//
+// A yield point sits immediately before every blocking lock acquisition (or atomic
+// load) that follows a lock release inside a UsagePool method, i.e. at every place
+// where another goroutine can run between two lock regions of one method call.
+// (The regions that start a method need no hook: the caller controls when a method
+// is entered. Constructors, destructors and Range callbacks are caller code.)
+// Without the build tag verifYield is an empty function (usagepool_noverif.go).
+const (
+	VerifUPLoadOrNewWait   = 1 // LoadOrNew, key found: refs incremented, pool unlocked, before upv.RLock()
+	VerifUPLoadOrNewFail   = 2 // LoadOrNew, constructor failed: upv.err set, before up.Lock()
+	VerifUPLoadOrStoreWait = 3 // LoadOrStore, key found: refs incremented, pool unlocked, before upv.Lock()
+	VerifUPDeleteRead      = 4 // Delete, refs reached 0: entry removed, pool unlocked, before upv.RLock()
+	VerifUPReferencesLoad  = 5 // References, key found: pool unlocked, before atomic.LoadInt32(&upv.refs)
+	VerifUPRangeVisit      = 6 // Range, holding up.RLock(): before upv.RLock() of the next entry
+)
+
+// VerifUsagePoolYield, if set (before any pool is used), is called at every yield
+// point with the pool, the point and the lock of the entry the caller is about to
+// touch. A forced-schedule harness parks the calling goroutine here.
+var VerifUsagePoolYield func(up *UsagePool, point int, entryLock *sync.RWMutex)
+
+func verifYield(up *UsagePool, point int, upv *usagePoolVal) {
+	if h := VerifUsagePoolYield; h != nil {
+		var l *sync.RWMutex
+		if upv != nil {
+			l = &upv.RWMutex
+		}
+		h(up, point, l)
+	}
+}
